@@ -51,7 +51,7 @@ def run_c12(pid, tier):
 def run_c13(pid, tier):
     t0 = time.time()
     v = Verdict(pid, tier, t0)
-    mr, ml, dmax, nrand = (3, 2, 3, 10) if tier == 'quick' else (4, 4, 4, 60)
+    mr, ml, dmax, nrand = (3, 3, 3, 10) if tier == 'quick' else (4, 4, 4, 60)
     mc = run_tlc('MCIndexKernel', 'SPECIFICATION Spec\nCONSTANTS MaxRound = %d MaxReps = 1\nINVARIANT Inv\n' % (mr + 1), workers=8, timeout=1500)
     tin = os.path.join(scratch(), 'kc_in.json')
     run_impl('drv_kernel_circuit.py', [mr, ml, dmax, tin, common.seed(), nrand], timeout=6000)
